@@ -67,7 +67,12 @@ const syncSigma = "ab&=+%2B ?#\t"
 // VerifC12Sync: interleavings of SearchParams mutations, SetSearch and other setters; the handle
 // is obtained first.
 func VerifC12Sync() {
-	u, err := Parse(syncStarts[vnd.Pick(len(syncStarts))])
+	// the parser's diagnostics options are symbolic: fail-on-validation-error makes the setters' inner
+	// parse return early, which must not leave the two representations out of step
+	p := NewParser().(*parser)
+	p.opts.failOnValidationError = vnd.Bool()
+	p.opts.reportValidationErrors = vnd.Bool()
+	u, err := p.Parse(syncStarts[vnd.Pick(len(syncStarts))])
 	if err != nil {
 		return
 	}
